@@ -51,7 +51,7 @@ SEED_POOL = [0, 1, 42, 2**32 - 1]
 
 def make_target(rng, kind):
     """JSON-able description of one seeded API call."""
-    p = int(rng.integers(2, 7))
+    p = int(rng.integers(1, 7))
     out = gmat.random_dag_masks(rng, p)
     W = gmat.weighted(rng, out, "signed")
     s = int(SEED_POOL[int(rng.integers(4))]) if rng.random() < 0.6 else int(rng.integers(0, 2**32))
@@ -119,9 +119,38 @@ def prepare(t):
         obj["do"] = {j: noise.normal(v[0], v[1]) for j, v in t["do"].items()}
         obj["sh"] = {j: noise.uniform(v[0], v[0] + v[1]) for j, v in t["shift"].items()}
 
-    def call(seeded=True):
+    if k == "anm_sample":
+        obj["do2"] = {j: noise.normal(v[0] + 1.5, v[1] * 2 + 0.1) for j, v in t["do"].items()}
+        obj["sh2"] = {j: noise.uniform(v[0] - 0.7, v[0] + v[1] + 0.3) for j, v in t["shift"].items()}
+
+    def call(seeded=True, variant=False):
+        if variant:
+            o2 = dict(obj)
+            if "do2" in obj:
+                o2["do"], o2["sh"] = obj["do2"], obj["sh2"]
+            return _call(_variant(t), o2, seeded, sempler, gens, U)
         return _call(t, obj, seeded, sempler, gens, U)
     return call
+
+
+def _variant(t):
+    """The same call with the same seed and the same intervention *targets* but other parameter values / another n:
+    used as a perturbation on the very object the target call uses (state kept per object or per argument 'shape')."""
+    v = dict(t)
+    if "do" in t:
+        v["do"] = {j: (p[0] + 1.5, p[1] * 2 + 0.1) for j, p in t["do"].items()}
+        v["shift"] = {j: (p[0] - 0.7, p[1] + 0.3) for j, p in t["shift"].items()}
+    if "n" in t and not t.get("do") and not t.get("shift"):
+        v["n"] = t["n"] + 1
+    if "w" in t:
+        v["w"] = (t["w"][0] * 0.5, t["w"][1] * 1.5) if t["w"][0] > 0 else (t["w"][0] * 1.5, t["w"][1] * 0.5)
+    if "ratios" in t:
+        v["ratios"] = [0.2, 0.3, 0.5]
+    if "count" in t:
+        v["count"] = max(0, t["count"] - 1)
+    if "means" in t and isinstance(t["means"], tuple):
+        v["means"] = (t["means"][0] - 1, t["means"][1] + 1)
+    return v
 
 
 def _call(t, obj, seeded, sempler, gens, U):
@@ -264,6 +293,13 @@ def judge(family, case, rec):
     digests = []
     try:
         call = prepare(target)
+        if target["seed"] % 2 == 0 or kind in ("lganm_sample", "anm_sample"):
+            # history *before* the first target call: same object, same seed and targets, other parameter values
+            try:
+                call(True, variant=True)
+                rec.count("perturbation:same-object-variant-first")
+            except Exception:
+                rec.count("perturbation:same-object-variant-raised")
         for step in range(3):
             st0 = np.random.get_state()[1].tobytes()
             digests.append(call(True))
@@ -272,11 +308,22 @@ def judge(family, case, rec):
             if step < 2:
                 for pt in case["programs"][step]:
                     run_perturbation(pt)
+                # the same object / function called with the same seed and targets but other parameter values
+                try:
+                    call(True, variant=True)
+                    rec.count("perturbation:same-object-variant")
+                except Exception:
+                    rec.count("perturbation:same-object-variant-raised")
     except Exception as e:
         rec.exception_violation("C13:target-exception-" + kind, family, case, "seeded %s raised %s" % (kind, type(e).__name__), e)
         return
+    try:
+        digests.append(prepare(target)(True))       # a freshly built twin object, same process
+    except Exception as e:
+        rec.exception_violation("C13:target-exception-" + kind, family, case, "seeded %s raised on a fresh twin" % kind, e)
+        return
     if len(set(digests)) != 1:
-        which = 1 if digests[0] != digests[1] else 2
+        which = 1 if digests[0] != digests[1] else (2 if digests[1] != digests[2] else 2)
         rec.violation("C13:not-reproducible-" + kind, family, case,
                       "%s with random_state=%d gave a different result after perturbation program %d: %s"
                       % (kind, target["seed"], which, [pt["op"] for pt in case["programs"][which - 1]]))
